@@ -275,7 +275,8 @@ def gen(t, tier):
         elif k == 'cond_refresh':
             sc['ops'].append(['cond_refresh', u, t.pick(['inm', 'ims'])])
         elif k == 'adv':
-            sc['ops'].append(['adv', t.pick([0.5, 1, 2, 10, 'boundary', 4000, 90000])])
+            # (negative: the server's clock is set back - tiles stored before are now "from the future")
+            sc['ops'].append(['adv', t.pick([0.5, 1, 2, 10, 'boundary', 4000, 90000, 0.5, 1, 2, 10, 'boundary', 4000, 90000, -3, -4000])])
         elif k == 'rewrite':
             sc['ops'].append(['rewrite', u])
         elif k == 'ocean':
@@ -438,6 +439,7 @@ def _run(sc, tape):
         return sum(1 for e in http.log if e['ok'] and e.get('bbox') and U.covers(e['bbox'], coords[u]))
 
     disk = {'armed': False, 'fired': False}
+    stepped_back = [False]
 
     def disk_hook(op_, key, proc):
         if disk['armed'] and op_ in ('write', 'rename') and '/cache/' in str(key) and '.lck' not in str(key):
@@ -595,6 +597,9 @@ def _run(sc, tape):
                 k = op[0]
                 if k == 'adv':
                     clock.now = float(int(clock.now) + 1) if op[1] == 'boundary' else clock.now + op[1]
+                    if op[1] != 'boundary' and op[1] < 0:
+                        stepped_back[0] = True
+                        probes['clock_set_back'] = probes.get('clock_set_back', 0) + 1
                 elif k == 'up500':
                     http.fail_code = 500 if op[1] else None
                 elif k == 'up404':
@@ -722,7 +727,7 @@ def _run(sc, tape):
                                 # rewritten within the same second: a backend with sub-second timestamps can (and the
                                 # code does) tell the current tile from the client's older copy
                                 expect304 = False
-                            if expect304 is None and plm is not None and plm > lm_ts:
+                            if expect304 is None and plm is not None and plm > lm_ts and not stepped_back[0]:
                                 raise Bad('last-modified-went-backwards', '%s: the tile was rewritten after a copy with Last-Modified '
                                           '%r was served, but now reports the older Last-Modified %r' % (what, prev[u]['lm'], cur['lm']))
                         else:
